@@ -14,6 +14,7 @@ import re
 
 from ..core import rule, AnalysisError
 from ..engine import emit, rx
+from ..engine import pattern as P
 from ..engine.facts import dotted, const, src, walk_func, str_value
 from . import skeletons as sk
 from .c13 import check_skeleton, loop_construct_traces, _T
@@ -73,10 +74,10 @@ def keyword_tables(ctx):
     # lexer: end keyword must match the open one; ternaries validated
     lx = db.func("lexer.Lexer.match_control_line")
     t = src(lx)
-    ctx.check("self.control_line[-1].keyword != keyword" in t and "not len(self.control_line)" in t, "lexer.end-match", db.where(lx), "an `end<kw>` line is not checked against the open control keyword", "end keyword checked against the innermost open control line")
+    ctx.check(P.has(lx, "self.control_line[-1].keyword != $k") and (P.has(lx, "not len(self.control_line)") or P.has(lx, "not self.control_line")), "lexer.end-match", db.where(lx), "an `end<kw>` line is not checked against the open control keyword", "end keyword checked against the innermost open control line")
     an = db.func("lexer.Lexer.append_node")
     t = src(an)
-    ctx.check("is_ternary(node.keyword)" in t and "not a legal ternary" in t, "lexer.ternary-check", db.where(an), "illegal ternary keywords are not rejected", "ternary keywords validated against the open primary")
+    ctx.check(P.has(an, "self.control_line[-1].is_ternary($n.keyword)") and any("SyntaxException" in n_ for n_, _ in __import__("verif.rules.common", fromlist=["x"]).raise_names(an)), "lexer.ternary-check", db.where(an), "illegal ternary keywords are not rejected", "ternary keywords validated against the open primary")
 
 
 def _segments(S, starts, end, seq):
